@@ -131,3 +131,24 @@ Theorem C08_tlru_utlru_value_cells_constant :
     tt_run uni (ttll_init cap ttl) h = Ok (l', rs) -> List.length (tt_elems l') = cap.
 Proof. exact @tt_value_cells_constant. Qed.
 Print Assumptions C08_tlru_utlru_value_cells_constant.
+
+(* ---- lfu_cache (LfudaLit.v with da = false: the same code without the aging parts; the
+   mid-level age list is related to the open list up to permutation, its order being
+   unobservable in lfu) ---- *)
+Require Import Capp.LfuLitFacts.
+
+Theorem C08_lfu_no_UB_on_any_history :
+  forall (K V : Type) (E : EqDec K) cap (h : list (ev K V)),
+    1 <= cap -> Forall (fun e => (0 <= e_now e)%Z) h ->
+    exists l', fu_run (lfdl_init cap 1 1 0) h = Ok (l', snd (run lfu_step (lfu_init cap) h)) /\
+               fu_rep l' (fst (run lfu_step (lfu_init cap) h)).
+Proof. exact @fu_no_UB_on_any_history. Qed.
+Print Assumptions C08_lfu_no_UB_on_any_history.
+
+Theorem C08_lfu_value_cells_constant :
+  forall (K V : Type) (E : EqDec K) cap (h : list (ev K V)) l' rs,
+    1 <= cap -> Forall (fun e => (0 <= e_now e)%Z) h ->
+    fu_run (lfdl_init cap 1 1 0) h = Ok (l', rs) ->
+    List.length (dl_cells l') = cap /\ List.length (dl_list l') = cap.
+Proof. exact @fu_value_cells_constant. Qed.
+Print Assumptions C08_lfu_value_cells_constant.
